@@ -1240,7 +1240,7 @@ Proof.
   pose proof (wf_m _ W) as I.
   assert (Hl : forall lg, In lg lgs -> forall e, In e lg -> entry_ok (r_map r) e).
   { intros lg Hlg e He. apply L. apply in_concat. exists lg. split; assumption. }
-  revert Hl. clear L. induction S as [|out lg outs lgs S1 S IH]; intro Hl; constructor.
+  revert Hl. clear L H. induction S as [|out lg outs lgs S1 S IH]; intro Hl; constructor.
   - intros lbl p Hin. destruct (S1 lbl p Hin) as (g & kb & b & Hp & Hk & Hb & Hg).
     apply in_map_iff in Hp. destruct Hp as ([[p' k] g'] & Ep & He). unfold log_pair in Ep. cbn [fst snd] in Ep. inversion Ep; subst p' g'.
     exists k, g, kb, b. split; [exact He|]. split; [exact Hb|]. split; [exact Hg|].
@@ -1285,8 +1285,10 @@ Theorem orphans_round_robin_proof : forall cf ord rounds r outs lgs, run_ok cf o
 Proof.
   intros cf ord rounds r outs lgs (Po & E & Hw). destruct (run_rr cf ord Po rounds reg_init r outs lgs wf_init E Hw) as (A & B).
   cbn [reg_init r_rgc] in A, B. split.
-  - intros l1 p g l2 E0. rewrite (A _ _ _ E0); [cbn [snd]; f_equal; lia|]. unfold is_orph. cbn [fst snd]. apply key_eqb_refl.
-  - rewrite B. f_equal. lia.
+  - intros l1 p g l2 E0.
+    assert (Ho : is_orph (p, orphan_key, g) = true) by (unfold is_orph; cbn [fst snd]; apply key_eqb_refl).
+    pose proof (A _ _ _ E0 Ho) as Hs. cbn [snd] in Hs. rewrite Hs. f_equal.
+  - rewrite B. f_equal.
 Qed.
 
 Theorem raw_groups_only_orphans_proof : forall cf ord rounds r outs lgs, run_ok cf ord rounds r outs lgs ->
@@ -1309,5 +1311,80 @@ Proof.
     destruct (Le _ Hin) as [[_ Lg]|Eg]; cbn [fst snd] in *.
     + rewrite MISS_eq, NRAW_eq in *. lia.
     + rewrite (mi_orph _ _ (wf_m _ W)) in Eg. inversion Eg. rewrite MISS_eq in *. lia.
-  - inversion E1. f_equal. congruence.
+  - inversion E1. congruence.
+Qed.
+
+(* ------------------------------------------------------------------ the ops a round hands to the group store *)
+Lemma existsb_eqb_In g (l : list N) : existsb (N.eqb g) l = true <-> In g l.
+Proof.
+  rewrite existsb_exists. split.
+  - intros (x & Hx & E). apply N.eqb_eq in E. subst. exact Hx.
+  - intro H. exists g. split; [exact H|apply N.eqb_refl].
+Qed.
+Lemma gids_of_spec (out : list (N * placed)) : forall seen,
+  NoDup (gids_of out seen) /\ (forall g, In g (gids_of out seen) <-> (In g (map fst out) /\ ~ In g seen)).
+Proof.
+  induction out as [|[g0 p] out IH]; intro seen; cbn [gids_of map fst].
+  - split; [constructor|]. intro g. cbn [In]. tauto.
+  - destruct (existsb (N.eqb g0) seen) eqn:E.
+    + apply existsb_eqb_In in E. destruct (IH seen) as [ND Hin]. split; [exact ND|]. intro g. rewrite Hin. cbn [In].
+      split; [tauto|]. intros [[H|H] Hn]; [subst; contradiction|tauto].
+    + assert (Hn0 : ~ In g0 seen) by (intro H; apply existsb_eqb_In in H; congruence).
+      destruct (IH (g0 :: seen)) as [ND Hin]. split.
+      * constructor; [|exact ND]. rewrite Hin. cbn [In]. tauto.
+      * intro g. cbn [In]. rewrite Hin. cbn [In]. destruct (N.eq_dec g0 g) as [->|Hne]; [tauto|]. tauto.
+Qed.
+Lemma flat_map_pick {B} (F : N -> list B) (l : list N) g : NoDup l ->
+  flat_map (fun g' => if g' =? g then F g' else []) l = if existsb (N.eqb g) l then F g else [].
+Proof.
+  induction l as [|x l IH]; intro ND; cbn [flat_map existsb]; [reflexivity|]. inversion ND; subst. rewrite (IH H2).
+  destruct (N.eqb_spec x g) as [->|Hne].
+  - rewrite N.eqb_refl. cbn [orb]. assert (E : existsb (N.eqb g) l = false).
+    { destruct (existsb (N.eqb g) l) eqn:E; [apply existsb_eqb_In in E; contradiction|reflexivity]. }
+    rewrite E, app_nil_r. reflexivity.
+  - assert (E : (g =? x) = false) by (apply N.eqb_neq; congruence). rewrite E. reflexivity.
+Qed.
+
+Theorem ops_carry_placements_proof : forall (out : list (N * placed)),
+  NoDup (map fst (ops_of_round out)) /\
+  forall g, flat_map (fun o : N * list placed => if fst o =? g then snd o else []) (ops_of_round out)
+            = map snd (filter (fun x => fst x =? g) out).
+Proof.
+  intro out. unfold ops_of_round. destruct (gids_of_spec out []) as [ND Hin]. split.
+  - rewrite map_map. cbn [fst]. rewrite map_id. exact ND.
+  - intro g. rewrite flat_map_concat_map, map_map. cbn [fst snd]. rewrite <- flat_map_concat_map.
+    rewrite (flat_map_pick (fun g' => map snd (filter (fun x => fst x =? g') out)) _ g ND).
+    destruct (existsb (N.eqb g) (gids_of out [])) eqn:E; [reflexivity|].
+    assert (Hn : ~ In g (map fst out)).
+    { intro H. assert (In g (gids_of out [])) by (apply Hin; split; [exact H|intros []]). apply existsb_eqb_In in H0. congruence. }
+    rewrite filter_none_in; [reflexivity|]. intros [g' p] Hx. cbn [fst]. apply N.eqb_neq. intro E2. subst g'.
+    apply Hn. apply in_map_iff. exists (g, p). split; [reflexivity|exact Hx].
+Qed.
+
+(* ------------------------------------------------------------------ the stored assignment is a function *)
+Definition placed_eqb (a b : placed) : bool :=
+  list_eqb N.eqb (p_sample a) (p_sample b) && list_eqb N.eqb (p_name a) (p_name b) && (p_part a =? p_part b) &&
+  Bool.eqb (p_rc a) (p_rc b).
+Lemma list_eqb_N_eq (a b : list N) : list_eqb N.eqb a b = true <-> a = b.
+Proof.
+  revert b. induction a as [|x a IH]; intros [|y b]; cbn [list_eqb]; try (split; [discriminate|discriminate]); [tauto|].
+  rewrite andb_true_iff, N.eqb_eq, IH. split; [intros [-> ->]; reflexivity|intro H; inversion H; auto].
+Qed.
+Lemma placed_eqb_eq a b : placed_eqb a b = true <-> a = b.
+Proof.
+  unfold placed_eqb. rewrite !andb_true_iff, !list_eqb_N_eq, N.eqb_eq, Bool.eqb_true_iff.
+  destruct a, b; cbn [p_sample p_name p_part p_rc]. split; [intros [[[-> ->] ->] ->]; reflexivity|intro H; inversion H; auto].
+Qed.
+Definition grp_of (stored : list (N * placed)) (p : placed) : N :=
+  match find (fun x => placed_eqb (snd x) p) stored with Some x => fst x | None => 0 end.
+
+Theorem group_of_is_a_function_proof : forall stored : list (N * placed), NoDup (map snd stored) ->
+  forall lbl p, In (lbl, p) stored -> grp_of stored p = lbl.
+Proof.
+  intros stored ND lbl p Hin. unfold grp_of. induction stored as [|[g q] l IH]; [destruct Hin|]. cbn [find snd map] in *.
+  inversion ND; subst. destruct (placed_eqb q p) eqn:E.
+  - apply placed_eqb_eq in E. subst q. destruct Hin as [H|H]; [inversion H; reflexivity|].
+    exfalso. apply H1. apply in_map_iff. exists (lbl, p). split; [reflexivity|exact H].
+  - destruct Hin as [H|H]; [inversion H; subst; rewrite (proj2 (placed_eqb_eq p p) eq_refl) in E; discriminate|].
+    apply IH; assumption.
 Qed.
